@@ -288,3 +288,8 @@ func liveFuncs(p *core.Program) map[*ssa.Function]bool {
 }
 
 func isExportedName(s string) bool { return s != "" && s[0] >= 'A' && s[0] <= 'Z' }
+
+func isUint64(t types.Type) bool {
+	b, ok := t.Underlying().(*types.Basic)
+	return ok && b.Kind() == types.Uint64
+}
